@@ -69,6 +69,36 @@ def run_rt_case(prop, case):
     return json.loads(p.stdout)
 
 
+def run_numreplay(call):
+    """the REAL aggregator on a concrete input found by the numeric evaluation of a refuted algebraic obligation"""
+    env = dict(os.environ)
+    env["PYTHONPATH"] = VERIF
+    env.setdefault("TJV_REPO", REPO)
+    try:
+        p = subprocess.run([VENV_PY, "-m", "tjv.rt.numreplay"], cwd=VERIF, env=env, input=json.dumps(call), capture_output=True, text=True, timeout=300)
+        if p.returncode != 0:
+            return {"error": p.stderr[-1000:]}
+        return json.loads(p.stdout)
+    except Exception as e:  # noqa: BLE001
+        return {"error": f"{type(e).__name__}: {e}"}
+
+
+def numeric_verdict(nv):
+    """-> ('violation', observed) | ('not-reproduced', observed) | ('error', msg)"""
+    import numpy as np
+    from tjv.pyvc.numeval import close
+    res = run_numreplay(nv["call"])
+    if "error" in res:
+        return "error", res["error"]
+    if "raise" in res:
+        return "violation", {"raises": res["raise"], "message": res.get("msg")}
+    try:
+        same = close(np.asarray(res["out"], dtype=np.float64), np.asarray(nv["expected"], dtype=np.float64), rtol=1e-5)
+    except Exception as e:  # noqa: BLE001
+        return "error", f"{type(e).__name__}: {e}"
+    return ("not-reproduced" if same else "violation"), res["out"]
+
+
 def run_pyvc(prop, tier):
     """Deductive arm: obligations generated from the AST of the current tree.  Returns dict."""
     try:
@@ -154,6 +184,25 @@ def check_property(prop, tier, seed):
         if listed:
             known_lines.append(f"KNOWN-FINDING: property={prop} {listed[0].get('what', key)} (obligation {key})")
             continue
+        nv = o.get("numeric") or {}
+        if nv.get("status") == "candidate" and nv.get("call"):
+            # the deductive arm's counter-model, made concrete under the standard interpretation: run the real code on it
+            verdict, observed = numeric_verdict(nv)
+            if verdict == "violation":
+                payload = {"property": prop, "obligation": key, "function": o.get("function"), "solver": o.get("backend"),
+                           "solver_output": o.get("solver_output", ""), "model": o.get("model"), "kind": "numeric",
+                           "numeric_call": nv["call"], "expected": nv["expected"], "observed": observed,
+                           "what": "the real aggregator's output on this input differs from the value of the specification term "
+                                   "(standard interpretation of the spec operators, float64)"}
+                path = write_replay(prop, key, payload)
+                violations.append((path, ""))
+                continue
+            if verdict == "not-reproduced":
+                o["result"] = "undecided"
+                o["reason"] = ("numeric counter-example of the refuted obligation is NOT reproduced by the real code (real output = spec value): "
+                               "the symbolic execution or the numeric interpretation of an operator is imprecise here; undecided")
+                undecided.append(o)
+                continue
         # replay: first a failing case of the bounded arm with the same finding family, else a focused search
         repro = None
         fam = o.get("replay_keys", [])
@@ -277,6 +326,14 @@ def do_replay(path):
     print(f"replay of {payload.get('kind')} violation of {prop}: obligation={payload.get('obligation')} key={payload.get('rt_key')}")
     if payload.get("solver_output"):
         print("solver output:", str(payload["solver_output"])[:2000])
+    if payload.get("kind") == "numeric":
+        verdict, observed = numeric_verdict({"call": payload["numeric_call"], "expected": payload["expected"]})
+        print(json.dumps({"verdict": verdict, "observed": observed, "expected": payload["expected"], "call": payload["numeric_call"]}, default=str)[:3000])
+        if verdict == "violation":
+            print(f"VIOLATION property={prop} replay={path}")
+            return 1
+        print("the recorded input no longer fails on the current tree" if verdict == "not-reproduced" else "replay error")
+        return 0 if verdict == "not-reproduced" else 3
     case = payload.get("concrete_case")
     if case is None:
         print("no concrete failing input recorded (no-failing-input-found); nothing to execute")
